@@ -197,4 +197,29 @@ example : parseResponseLine (b!"HTTP/1.1 404 Not Found") =
       message := some (b!"Not Found") } :=
   C02_response_line_roundtrip (b!"HTTP/1.1") (b!"404") (b!"Not Found") (by decide) (by decide) (by decide) (by decide) 0x4e (b!"ot Found") rfl (by decide)
 
+/-- the RFC 2616 separators -/
+def sepSpec (c : UInt8) : Bool :=
+  c == 0x28 || c == 0x29 || c == 0x3c || c == 0x3e || c == 0x40 || c == 0x2c || c == 0x3b || c == 0x3a || c == 0x5c || c == 0x22 ||
+  c == 0x2f || c == 0x5b || c == 0x5d || c == 0x3f || c == 0x3d || c == 0x7b || c == 0x7d || c == 0x20 || c == 0x09
+
+/-- **C02 (the character classes are the documented ones)**: the class tables the translator regenerates from the current source on every
+    run - they decide where the line parsers split names, values, tokens and white space - are, for all 256 bytes, the classes of RFC 2616
+    and of C's ctype in the "C" locale. A change to a class function that moves any byte breaks this by kernel evaluation, whatever the
+    correspondence (whose model follows the regenerated tables) says. -/
+theorem C02_char_classes : ∀ c : UInt8,
+    Htp.Gen.isLws c = (c == 0x20 || c == 0x09) ∧
+    Htp.Gen.isSpace c = (c == 0x20 || (decide (0x09 ≤ c) && decide (c ≤ 0x0d))) ∧
+    Htp.Gen.cIsspace c = Htp.Gen.isSpace c ∧
+    Htp.Gen.isChunkedCtl c = Htp.Gen.isSpace c ∧
+    Htp.Gen.isFoldingChar c = (Htp.Gen.isLws c || c == 0) ∧
+    Htp.Gen.isSeparator c = sepSpec c ∧
+    Htp.Gen.isText c = (c == 0x09 || decide (0x20 ≤ c)) ∧
+    Htp.Gen.isToken c = (decide (0x20 ≤ c) && decide (c ≤ 0x7e) && !sepSpec c) ∧
+    Htp.Gen.cIsdigit c = (decide (0x30 ≤ c) && decide (c ≤ 0x39)) ∧
+    Htp.Gen.cIsxdigit c = (Htp.Gen.cIsdigit c || (decide (0x41 ≤ c) && decide (c ≤ 0x46)) || (decide (0x61 ≤ c) && decide (c ≤ 0x66))) ∧
+    Htp.Gen.cTolower c = (if decide (0x41 ≤ c) && decide (c ≤ 0x5a) then c + 0x20 else c) ∧
+    Htp.Gen.cToupper c = (if decide (0x61 ≤ c) && decide (c ≤ 0x7a) then c - 0x20 else c) := by
+  apply forall_uint8_of_lt
+  decide +kernel
+
 end Htp.C02
